@@ -445,7 +445,10 @@ Qed.
 Lemma sub_r_pow S a e r : r_pow a e = Some r -> sub S a -> sub S e -> sub S r.
 Proof.
   unfold r_pow, bind. intros E Ha He.
-  destruct (top a); try (eapply sub_mk_pow; eauto; fail); crush E; auto with subdb.
+  destruct (num_value a); [|eapply sub_mk_pow; eauto].
+  destruct (constant_value e) as [[p| |]|]; try discriminate.
+  destruct (negb (fst f =? 0)%Z || fr_leb (0%Z, 1%Z) p); [|eapply sub_mk_pow; eauto].
+  crush E; auto with subdb.
 Qed.
 Lemma sub_r_minus S a b r : r_minus a b = Some r -> sub S a -> sub S b -> sub S r.
 Proof.
@@ -834,182 +837,3 @@ Proof.
   - apply incl_refl.
 Qed.
 
-(* ------------------------------------------------------------------ constant arguments fold *)
-(* Operators for which it is proved that constant arguments are folded to a constant (whenever
-   the rule returns at all): all bit-vector operators and relations, bv2nat, and the Boolean
-   connectives Not / Iff / Implies. *)
-Definition fold_op (o : op) : bool :=
-  match o with
-  | OBV _ _ | OBVRel _ | OBVExtract _ _ _ | OBVRol _ _ | OBVRor _ _ | OBVZext _ _ | OBVSext _ _
-  | OBVToNat | ONot | OIff | OImplies => true
-  | _ => false
-  end.
-Definition arg_const_for (o : op) (a : term) : bool :=
-  match o with
-  | ONot | OIff | OImplies => is_bool_constant a
-  | _ => is_bv_constant a
-  end.
-
-Lemma const_mk_bv v w r : mk_bv v w = Some r -> is_bv_constant r = true.
-Proof.
-  unfold mk_bv. destruct (v <? 0)%Z; [discriminate|]. destruct (2 ^ w <=? v)%Z; [discriminate|].
-  intros H; inversion H; reflexivity.
-Qed.
-Lemma const_mk_bv_bits bits w r : mk_bv_bits bits w = Some r -> is_bv_constant r = true.
-Proof.
-  unfold mk_bv_bits. destruct (int_of_bits bits); [|discriminate].
-  destruct w as [w'|]; [destruct (w' =? zlen bits)%Z; [|discriminate]|]; apply const_mk_bv.
-Qed.
-Lemma bvc_is_const r : is_bv_constant r = true -> is_const r = true.
-Proof. unfold is_bv_constant, is_const. destruct (top r); auto. Qed.
-Lemma bvc_value a : is_bv_constant a = true -> exists v, bv_value a = Some v.
-Proof. unfold is_bv_constant, bv_value. destruct (top a); try discriminate. eauto. Qed.
-Lemma bvc_signed a : is_bv_constant a = true -> exists v, bv_signed_value a = Some v.
-Proof. unfold is_bv_constant, bv_signed_value. destruct (top a); try discriminate. eauto. Qed.
-Lemma bvc_bin_str a : is_bv_constant a = true -> exists v, bv_bin_str a = Some v.
-Proof. unfold is_bv_constant, bv_bin_str. destruct (top a); try discriminate. eauto. Qed.
-Lemma bvc_is_constant a : is_bv_constant a = true -> is_constant a = true.
-Proof. destruct a as [o xs]. unfold is_bv_constant. cbn. destruct o; try discriminate; auto. Qed.
-
-#[export] Hint Immediate const_mk_bv const_mk_bv_bits : constdb.
-Ltac use_bvc :=
-  repeat match goal with
-         | H : is_bv_constant ?a = true |- _ =>
-             let v := fresh "v" in let E := fresh "Ev" in
-             let s := fresh "sv" in let Es := fresh "Es" in
-             let b := fresh "bs" in let Eb := fresh "Eb" in
-             destruct (bvc_value a H) as [v E]; destruct (bvc_signed a H) as [s Es];
-             destruct (bvc_bin_str a H) as [b Eb];
-             pose proof (bvc_is_constant a H);
-             revert H
-         end; intros.
-Ltac fold_rule E :=
-  unfold bind in E;
-  repeat match goal with
-         | H : bv_value _ = Some _ |- _ => rewrite H in E
-         | H : bv_signed_value _ = Some _ |- _ => rewrite H in E
-         | H : bv_bin_str _ = Some _ |- _ => rewrite H in E
-         | H : is_constant _ = true |- _ => rewrite H in E
-         | H : is_bv_constant _ = true |- _ => rewrite H in E
-         end;
-  crush E; eauto with constdb.
-
-Lemma fold_bv_neg w a r : is_bv_constant a = true -> r_bv_neg w a = Some r -> is_bv_constant r = true.
-Proof. intros Ha E. use_bvc. unfold r_bv_neg in E. fold_rule E. Qed.
-Lemma fold_bv_udiv w a b r : is_bv_constant a = true -> is_bv_constant b = true ->
-  r_bv_udiv w a b = Some r -> is_bv_constant r = true.
-Proof. intros Ha Hb E. use_bvc. unfold r_bv_udiv in E. fold_rule E. Qed.
-Lemma fold_bv_urem w a b r : is_bv_constant a = true -> is_bv_constant b = true ->
-  r_bv_urem w a b = Some r -> is_bv_constant r = true.
-Proof. intros Ha Hb E. use_bvc. unfold r_bv_urem in E. fold_rule E. Qed.
-Lemma fold_bv_shift k sh a b r : is_bv_constant a = true -> is_bv_constant b = true ->
-  r_bv_shift k sh a b = Some r -> is_bv_constant r = true.
-Proof. intros Ha Hb E. use_bvc. unfold r_bv_shift in E. fold_rule E. Qed.
-Lemma fold_neg_c a r : is_bv_constant a = true -> neg_c a = Some r -> is_bv_constant r = true.
-Proof. unfold neg_c. apply fold_bv_neg. Qed.
-
-Ltac fwdc :=
-  repeat match goal with
-         | H : neg_c ?a = Some ?r, Ha : is_bv_constant ?a = true |- _ =>
-             lazymatch goal with _ : is_bv_constant r = true |- _ => fail
-                                | _ => pose proof (fold_neg_c a r Ha H) end
-         | H : r_bv_udiv ?w ?a ?b = Some ?r, Ha : is_bv_constant ?a = true, Hb : is_bv_constant ?b = true |- _ =>
-             lazymatch goal with _ : is_bv_constant r = true |- _ => fail
-                                | _ => pose proof (fold_bv_udiv w a b r Ha Hb H) end
-         | H : r_bv_urem ?w ?a ?b = Some ?r, Ha : is_bv_constant ?a = true, Hb : is_bv_constant ?b = true |- _ =>
-             lazymatch goal with _ : is_bv_constant r = true |- _ => fail
-                                | _ => pose proof (fold_bv_urem w a b r Ha Hb H) end
-         | H : Some ?a = Some ?r, Ha : is_bv_constant ?a = true |- _ =>
-             lazymatch goal with _ : is_bv_constant r = true |- _ => fail
-                                | _ => (assert (is_bv_constant r = true) by (inversion H; subst; exact Ha)) end
-         end.
-
-Lemma fold_bv_sdiv a b r : is_bv_constant a = true -> is_bv_constant b = true ->
-  r_bv_sdiv a b = Some r -> is_bv_constant r = true.
-Proof.
-  intros Ha Hb E. unfold r_bv_sdiv, bind in E.
-  destruct (bvc_signed a Ha) as [sa Esa]. destruct (bvc_signed b Hb) as [sb Esb].
-  rewrite Esa, Esb in E.
-  repeat (destr_in E; try discriminate E); fwdc; auto.
-Qed.
-Lemma fold_bv_srem a b r : is_bv_constant a = true -> is_bv_constant b = true ->
-  r_bv_srem a b = Some r -> is_bv_constant r = true.
-Proof.
-  intros Ha Hb E. unfold r_bv_srem, bind in E.
-  destruct (bvc_signed a Ha) as [sa Esa]. destruct (bvc_signed b Hb) as [sb Esb].
-  rewrite Esa, Esb in E.
-  destruct (sa <? 0)%Z; destruct (sb <? 0)%Z;
-    repeat (destr_in E; try discriminate E); fwdc; auto.
-Qed.
-Lemma fold_bv_ashr w a b r : is_bv_constant a = true -> is_bv_constant b = true ->
-  r_bv_ashr w a b = Some r -> is_bv_constant r = true.
-Proof.
-  intros Ha Hb E. unfold r_bv_ashr, bind, r_bv_lshr in E.
-  destruct (bvc_signed a Ha) as [sa Esa]. destruct (bvc_value b Hb) as [vb Evb].
-  rewrite Esa, Evb in E.
-  destruct (r_bv_shift BLshr py_shr a b) eqn:Es; [|discriminate].
-  pose proof (fold_bv_shift _ _ _ _ _ Ha Hb Es).
-  crush E; eauto with constdb.
-Qed.
-
-Theorem const_args_fold : forall ora o args r,
-  fold_op o = true -> Forall (fun a => arg_const_for o a = true) args ->
-  rule ora o args = Some r -> is_const r = true.
-Proof.
-  intros ora o args r Ho H E.
-  destruct o; try discriminate Ho; cbn [rule] in E; unfold un, bin, tern in E; unfold arg_const_for in H.
-  - (* Not *)
-    destruct args as [|a [|? ?]]; try discriminate. inversion E; subst. inversion H; subst.
-    unfold r_not, is_bool_constant in *. destruct (top a); try discriminate; reflexivity.
-  - (* Implies *)
-    destruct args as [|a [|b [|? ?]]]; try discriminate. inversion E; subst.
-    inversion H as [|? ? Ha H']; subst. inversion H' as [|? ? Hb ?]; subst.
-    unfold r_implies, is_bool_constant, is_const in *.
-    destruct (top a); try discriminate; destruct (top b) eqn:Eb; try discriminate.
-    destruct b0; cbn; [rewrite Eb|]; reflexivity.
-  - (* Iff *)
-    destruct args as [|a [|b [|? ?]]]; try discriminate. inversion E; subst.
-    inversion H as [|? ? Ha H']; subst. inversion H' as [|? ? Hb ?]; subst.
-    unfold r_iff, is_bool_constant, is_const in *.
-    destruct (top a); try discriminate; destruct (top b) eqn:Eb; try discriminate. reflexivity.
-  - (* OBV *)
-    apply bvc_is_const.
-    destruct k;
-      try (destruct args as [|a [|b [|? ?]]]; try discriminate);
-      try (destruct args as [|a [|b ?]]; try discriminate);
-      try (destruct args as [|a ?]; try discriminate);
-      repeat match goal with
-             | H : Forall _ (_ :: _) |- _ => let Hx := fresh "Hc" in let Hr := fresh "Hr" in
-                                             inversion H as [|? ? Hx Hr]; subst; clear H
-             end;
-      eauto using fold_bv_neg, fold_bv_udiv, fold_bv_urem, fold_bv_shift, fold_bv_sdiv, fold_bv_srem, fold_bv_ashr;
-      use_bvc;
-      first [ unfold r_bv_not in E | unfold r_bv_and in E | unfold r_bv_or in E | unfold r_bv_xor in E
-            | unfold r_bv_concat in E | unfold r_bv_add in E | unfold r_bv_sub in E | unfold r_bv_mul in E
-            | unfold r_bv_comp in E ];
-      try fold_rule E.
-    + (* concat *)
-      unfold is_bv_constant in *. destruct (top a); try discriminate. destruct (top b); try discriminate.
-      eauto with constdb.
-    + (* sub *)
-      rewrite Ev, Ev0 in E. destruct (v0 =? 0)%Z; [inversion E; subst; auto|]. eauto with constdb.
-  - (* OBVRel *)
-    destruct k; destruct args as [|a [|b ?]]; try discriminate;
-      inversion H as [|? ? Ha H']; subst; inversion H' as [|? ? Hb ?]; subst; use_bvc.
-    + unfold r_bv_ult in E. fold_rule E.
-    + unfold r_bv_ule in E. fold_rule E.
-    + unfold r_bv_scmp in E. fold_rule E.
-    + unfold r_bv_scmp in E. fold_rule E.
-  - destruct args as [|a ?]; try discriminate. inversion H; subst. use_bvc. apply bvc_is_const.
-    unfold r_bv_extract in E. fold_rule E.
-  - destruct args as [|a ?]; try discriminate. inversion H; subst. use_bvc. apply bvc_is_const.
-    unfold r_bv_rol in E. fold_rule E.
-  - destruct args as [|a ?]; try discriminate. inversion H; subst. use_bvc. apply bvc_is_const.
-    unfold r_bv_ror in E. fold_rule E.
-  - destruct args as [|a ?]; try discriminate. inversion H; subst. use_bvc. apply bvc_is_const.
-    unfold r_bv_zext in E. fold_rule E.
-  - destruct args as [|a ?]; try discriminate. inversion H; subst. use_bvc. apply bvc_is_const.
-    unfold r_bv_sext in E. fold_rule E.
-  - destruct args as [|a ?]; try discriminate. inversion H; subst. use_bvc.
-    unfold r_bv_tonatural in E. fold_rule E.
-Qed.
